@@ -17,7 +17,8 @@ CONSTANTS Families,    \* names of the universes to explore (DOMAIN Conf)
 \* (kinds and roots are sequences so that the record can live in a dumped state variable)
 U(kinds, leaf, coal, depth, nodes, width, stk, roots) ==
   [kinds |-> kinds, leaf |-> leaf, coal |-> coal, depth |-> depth, nodes |-> nodes, width |-> width,
-   stack |-> stk, roots |-> roots]
+   stack |-> stk, roots |-> roots, top |-> "none"]
+WithTop(u, top) == [u EXCEPT !.top = top]       \* which top-level glom(.., default=, skip_exc=, scope=) variants
 Containers == <<"dict", "odict", "dictk", "list", "tuple", "pipe", "spec", "coalesce">>
 Conf == [
   \* ---- quick tier ----
@@ -31,9 +32,17 @@ Conf == [
   q_coaln1    |-> U(<<"coalesce">>, "nonel", "full", 2, 2, 1, 1, <<1>>),
   q_coaln2    |-> U(<<"coalesce">>, "nonel", "mid", 2, 3, 2, 2, <<1>>),
   q_chains    |-> U(<<"tuple", "pipe">>, "tiny", "basic", 3, 5, 2, 3, <<1, 3>>),
+  q_inspect   |-> U(<<"inspect", "tuple", "dict", "coalesce">>, "tiny", "one", 3, 4, 2, 2, <<1>>),
+  q_scope     |-> WithTop(U(<<"sset", "specs", "tuple", "dict", "coalesce">>, "scopel", "one", 3, 4, 2, 2, <<1>>), "scope"),
+  q_sets      |-> U(<<"set", "fill", "tuple", "dict">>, "setl", "one", 3, 4, 2, 2, <<1, 3>>),
+  q_top       |-> WithTop(U(<<"tuple", "dict", "coalesce">>, "small", "one", 2, 3, 2, 2, <<1, 3>>), "some"),
   q_ref       |-> U(<<"ref", "tuple", "coalesce">>, "refl", "one", 4, 5, 2, 2, <<1>>),
   \* ---- thorough tier ----
   t_chains    |-> U(<<"tuple", "pipe">>, "small", "basic", 4, 5, 2, 3, <<1, 3>>),
+  t_inspect   |-> U(<<"inspect", "tuple", "dict", "coalesce", "list">>, "tiny", "one", 4, 5, 2, 2, <<1>>),
+  t_scope     |-> WithTop(U(<<"sset", "specs", "tuple", "pipe", "dict", "coalesce", "list">>, "scopel", "one", 3, 5, 2, 2, <<1>>), "scope"),
+  t_sets      |-> U(<<"set", "fill", "tuple", "dict", "coalesce", "list">>, "setl", "one", 4, 4, 2, 2, <<1, 3>>),
+  t_top       |-> WithTop(U(<<"tuple", "dict", "coalesce", "list">>, "small", "basic", 3, 4, 2, 2, <<1>>), "some"),
   t_ref       |-> U(<<"ref", "tuple", "coalesce", "list">>, "refl", "basic", 4, 5, 2, 2, <<1, 2>>),
   t_nest      |-> U(Containers, "small", "basic", 3, 4, 2, 3, <<1, 2, 3>>),
   t_nest5     |-> U(<<"dict", "list", "tuple">>, "tiny", "basic", 3, 5, 2, 3, <<1>>),
@@ -47,9 +56,14 @@ Conf == [
   m_coal      |-> U(<<"coalesce">>, "tiny", "basic", 2, 3, 2, 2, <<1>>),
   m_dict      |-> U(<<"dict">>, "tiny", "basic", 2, 3, 2, 2, <<1>>),
   m_invoke    |-> U(<<"invoke">>, "argsmall", "basic", 2, 3, 2, 2, <<1>>),
+  m_inspect   |-> U(<<"inspect", "tuple">>, "tiny", "one", 3, 3, 2, 2, <<1>>),
+  m_top       |-> WithTop(U(<<"tuple">>, "tiny", "one", 2, 2, 2, 2, <<1>>), "some"),
+  m_set       |-> U(<<"set", "fill">>, "setl", "one", 3, 3, 2, 2, <<1>>),
+  m_scope     |-> WithTop(U(<<"sset", "tuple">>, "scopel", "one", 3, 4, 2, 3, <<1>>), "scope"),
   probe       |-> U(<<>>, "tiny", "basic", 1, 0, 0, 0, <<1>>) ]
 
-AllKinds == {"dict", "odict", "dictk", "list", "tuple", "pipe", "spec", "coalesce", "call", "invoke",
+AllKinds == {"inspect", "set", "sset", "specs",
+             "dict", "odict", "dictk", "list", "tuple", "pipe", "spec", "coalesce", "call", "invoke",
              "ref", "fill", "auto"}
 
 \* ---- targets: one heap, several roots --------------------------------------------------
@@ -95,8 +109,12 @@ ArgSmallLeaves == {P("a", <<"a">>), TT(<<Step("[", S("a"))>>), TT(<<Step("[", S(
 ArgTinyLeaves == {TT(<<Step("[", S("a"))>>), Wrap("spec", F("inc")), Wrap("spec", F("raise_KeyError"))}
 \* alternatives that succeed with the value None (target value, Val, callable) next to failing ones
 NoneLeaves == {P("z", <<"z">>), V(VNone), F("ret_None"), P("a", <<"a">>), P("x", <<"x">>), F("raise_KeyError")}
+SG(name, form) == [op |-> "sget", name |-> name, form |-> form]
+ScopeLeaves == {SG("v", "."), SG("v", "["), SG("w", "."), [op |-> "aset", name |-> "v"],
+                P("a", <<"a">>), F("inc"), F("ret_SKIP")}
+SetLeaves == {TT(<<>>), TT(<<Step("[", S("a"))>>), P("a", <<"a">>), F("inc"), F("ret_SKIP"), V(VNone)}
 RefLeaves == {P("n", <<"n">>), P("a", <<"a">>), F("inc")}
-LeavesOf(c) == (CASE c.leaf = "tiny" -> TinyLeaves [] c.leaf = "refl" -> RefLeaves [] c.leaf = "nonel" -> NoneLeaves [] c.leaf = "argtiny" -> ArgTinyLeaves [] c.leaf = "small" -> SmallLeaves [] c.leaf = "full" -> FullLeaves
+LeavesOf(c) == (CASE c.leaf = "tiny" -> TinyLeaves [] c.leaf = "refl" -> RefLeaves [] c.leaf = "scopel" -> ScopeLeaves [] c.leaf = "setl" -> SetLeaves [] c.leaf = "nonel" -> NoneLeaves [] c.leaf = "argtiny" -> ArgTinyLeaves [] c.leaf = "small" -> SmallLeaves [] c.leaf = "full" -> FullLeaves
                   [] c.leaf = "argsmall" -> ArgSmallLeaves [] OTHER -> ArgLeaves)
                \cup (IF \E i \in 1..Len(c.kinds) : c.kinds[i] = "ref" THEN {RefUse} ELSE {})
 
@@ -126,6 +144,20 @@ MidOpts == {Opt(d, sk, ex) :
                ex \in {GE, <<"KeyError">>, <<"ValueError", "TypeError">>, <<>>}}
 OneOpt == {Opt(DArg(K(VNone)), SkNone, GE)}
 CoalOptsOf(c) == CASE c.coal = "one" -> OneOpt [] c.coal = "full" -> FullOpts [] c.coal = "mid" -> MidOpts [] OTHER -> BasicOpts
+
+\* Inspect(x, recursive=, echo=, breakpoint=, post_mortem=)
+Insp(kid, rec, echo, bp, pm) == [op |-> "inspect", kids |-> <<kid>>, rec |-> rec, echo |-> echo, bp |-> bp, pm |-> pm]
+InspVariants == {<<FALSE, TRUE, "", "">>, <<FALSE, FALSE, "", "">>, <<TRUE, TRUE, "", "">>,
+                 <<FALSE, TRUE, "mk0", "echo">>, <<TRUE, FALSE, "mk0", "mk0">>, <<FALSE, FALSE, "raise_KeyError", "">>,
+                 <<FALSE, FALSE, "", "raise_KeyError">>}
+\* top-level call variants
+TOpt(d, ex, sc) == [dflt |-> d, skipexc |-> ex, scope |-> sc]
+TopOptsOf(c) ==
+  CASE c.top = "some"  -> {NoOpts, TOpt(<<VInt(7)>>, <<>>, <<>>), TOpt(<<>>, << <<"KeyError">> >>, <<>>),
+                           TOpt(<<VInt(7)>>, << <<"KeyError">> >>, <<>>), TOpt(<<SKIP>>, << <<"ValueError", "TypeError">> >>, <<>>),
+                           TOpt(<<VNone>>, << <<>> >>, <<>>)}
+    [] c.top = "scope" -> {NoOpts, TOpt(<<>>, <<>>, << <<"v", VInt(9)>> >>)}
+    [] OTHER           -> {NoOpts}
 
 \* Call: func position
 CallFuncs == {F("echo"), F("pair"), TT(<<Step("[", S("f"))>>), TT(<<Step("[", S("a"))>>),
@@ -171,10 +203,11 @@ KeySpecs == {TT(<<Step("[", S("k"))>>), Wrap("spec", P("k", <<"k">>)), Wrap("spe
 LitKeyNames == <<S("p"), S("q"), S("r")>>
 
 \* ---- the stack machine ----------------------------------------------------------------------
-VARIABLES fam,      \* name of the universe this behaviour belongs to
+VARIABLES opts,     \* the top-level arguments of the case (NoOpts until the case is evaluated)
+          fam,      \* name of the universe this behaviour belongs to
           conf,     \* = Conf[fam] (kept in the state so that the bounds are cheap to read)
           stack, nodes, phase, root, pred
-vars == <<fam, conf, stack, nodes, phase, root, pred>>
+vars == <<opts, fam, conf, stack, nodes, phase, root, pred>>
 KindOn(k) == \E i \in 1..Len(conf.kinds) : conf.kinds[i] = k
 Leaves == LeavesOf(conf)
 CoalOpts == CoalOptsOf(conf)
@@ -184,7 +217,8 @@ MaxWidth == conf.width
 MaxStack == conf.stack
 Roots == {conf.roots[i] : i \in 1..Len(conf.roots)}
 
-El(s, d, open) == [s |-> s, d |-> d, open |-> open]
+El(s, d, open, insp) == [s |-> s, d |-> d, open |-> open, insp |-> insp]
+AnyInsp(els) == \E i \in 1..Len(els) : els[i].insp
 Top(n)   == SubSeq(stack, Len(stack) - n + 1, Len(stack))
 Below(n) == SubSeq(stack, 1, Len(stack) - n)
 KidsOf(els) == [i \in 1..Len(els) |-> els[i].s]
@@ -196,16 +230,16 @@ ChainOk(kids) == \A i \in 1..(Len(kids) - 1) : ~Leaky(kids[i])
 Made(n, s, closes) ==       \* replace the topmost n trees by the composite s
   /\ nodes < MaxNodes
   /\ MaxD(Top(n)) < MaxDepth
-  /\ stack' = Append(Below(n), El(s, MaxD(Top(n)) + 1, AnyOpen(Top(n)) /\ ~closes))
+  /\ stack' = Append(Below(n), El(s, MaxD(Top(n)) + 1, AnyOpen(Top(n)) /\ ~closes, AnyInsp(Top(n)) \/ s.op = "inspect"))
   /\ nodes' = nodes + 1
-  /\ UNCHANGED <<fam, conf, phase, root, pred>>
+  /\ UNCHANGED <<opts, fam, conf, phase, root, pred>>
 
 Push ==
   /\ phase = 0 /\ Len(stack) < MaxStack /\ nodes < MaxNodes
   /\ \E l \in Leaves :
-       /\ stack' = Append(stack, El(l, 1, l.op = "ref"))
+       /\ stack' = Append(stack, El(l, 1, l.op = "ref", FALSE))
        /\ nodes' = nodes + 1
-  /\ UNCHANGED <<fam, conf, phase, root, pred>>
+  /\ UNCHANGED <<opts, fam, conf, phase, root, pred>>
 
 Compose ==
   /\ phase = 0
@@ -238,19 +272,32 @@ Compose ==
           \/ /\ KindOn("call") /\ n = 1       \* args / kwargs given by a spec instead of a literal
              /\ \/ Made(n, [op |-> "call", func |-> F("echo"), args |-> kids[1], kwargs |-> EmptyDict], FALSE)
                 \/ Made(n, [op |-> "call", func |-> F("echo"), args |-> Tup(<<>>), kwargs |-> kids[1]], FALSE)
+          \/ /\ KindOn("inspect") /\ n = 1
+             /\ \E iv \in InspVariants :
+                  \* an Inspect below a recursive Inspect makes the library recurse without end (reported);
+                  \* such trees are kept out of the universe
+                  /\ (iv[1] => ~AnyInsp(Top(n)))
+                  /\ Made(n, Insp(kids[1], iv[1], iv[2], iv[3], iv[4]), FALSE)
+          \/ /\ KindOn("set") /\ n <= 1
+             /\ \E fz \in BOOLEAN : Made(n, [op |-> "set", kids |-> kids, frozen |-> fz], FALSE)
+          \/ /\ KindOn("sset") /\ n \in {1, 2}
+             /\ Made(n, [op |-> "sset", names |-> SubSeq(<<"v", "w">>, 1, n), kids |-> kids], FALSE)
+          \/ /\ KindOn("specs") /\ n = 1
+             /\ Made(n, [op |-> "specs", kids |-> kids, scope |-> << <<"v", VInt(5)>> >>], FALSE)
           \/ /\ KindOn("invoke") /\ n <= 2
              /\ \E iv \in InvTemplates(kids) : Made(n, iv, FALSE)
 
 Evaluate ==
   /\ phase = 0 /\ Len(stack) = 1 /\ ~stack[1].open
-  /\ \E r \in Roots :
-       /\ root' = RootTab[r]
-       /\ pred' = Outcome(Run(TargetHeap, RootTab[r], stack[1].s, Mutant), Len(TargetHeap))
+  /\ \E r \in Roots : \E o \in TopOptsOf(conf) :
+       /\ root' = RootTab[r] /\ opts' = o
+       /\ pred' = Outcome(RunTop(TargetHeap, RootTab[r], stack[1].s, o, Mutant), Len(TargetHeap))
   /\ phase' = 1
   /\ UNCHANGED <<fam, conf, stack, nodes>>
 
 Init == /\ fam \in Families
         /\ conf = Conf[fam]
+        /\ opts = NoOpts
         /\ stack = <<>> /\ nodes = 0 /\ phase = 0 /\ root = VNone
         /\ pred = [skip |-> "init"]
         /\ (fam = CHOOSE f \in Families : TRUE) => PrintT(ToJson([targetheap |-> TargetHeap]))
@@ -259,6 +306,16 @@ Next == Push \/ Compose \/ Evaluate
 \* ---- the laws, on every case ------------------------------------------------------------------
 TheSpec == stack[1].s
 \* (cases the model places outside its fragment carry no prediction and are not judged)
-Laws == phase = 1 /\ pred.skip = "" => Lawful(St0(TargetHeap), Env0(Fuel, Mutant), root, TheSpec)
+Laws == phase = 1 /\ pred.skip = "" => Lawful(St0(TargetHeap), TopEnv(opts, Mutant), root, TheSpec)
+\* (L12) top level: glom(t, spec, default=d, skip_exc=E) is glom(t, spec) unless that raises an exception
+\*       of a class in E (GlomError when only d is given): then it is d itself (None when only E is given),
+\*       with everything the evaluation did up to the failure (the call log) unchanged
+TopLaw == phase = 1 /\ pred.skip = "" =>
+  LET W == RunTop(TargetHeap, root, TheSpec, opts, Mutant)
+      X == RunTop(TargetHeap, root, TheSpec, [NoOpts EXCEPT !.scope = opts.scope], Mutant)
+      given == opts.dflt # <<>> \/ opts.skipexc # <<>>
+      cls == IF opts.skipexc # <<>> THEN opts.skipexc[1] ELSE <<"GlomError">> IN
+  IF X.ok \/ ~given \/ ~Catches(cls, X.exc) THEN W = X
+  ELSE W = ROk(X.st, IF opts.dflt # <<>> THEN opts.dflt[1] ELSE VNone)
 Once == phase = 1 /\ pred.skip = "" => OnceLaw(TargetHeap, root, TheSpec, Mutant)
 ====================================================================================
